@@ -94,6 +94,7 @@ BREAK = {
         (['C07.c'], M, "        formats.verify_sized_item(self.length, self.getfieldval('data'))\n", ""),
     ],
     'C08': [
+        (['C08.e'], 'bp/encoding/fields.py', "        if s and s[0] is None:\n", "        if s and s[0] is None and False:\n"),
         (['C08.e'], 'scapy_cbor/fields.py', "        if not isinstance(lst, (list, tuple)):\n            # a byte string also iterates as integers\n            raise DecodeError('Item for {} is not an array: {!r}'.format(self.name, lst))\n", ""),
         (['C08.e'], 'scapy_cbor/fields.py', "(isinstance(s[0], bool) or not isinstance(s[0], int))", "(not isinstance(s[0], int))"),
         (['C08.e'], 'scapy_cbor/fields.py', "        if s and s[0] is not None and not isinstance(s[0], bytes):\n            raise DecodeError('Item for {} is not a byte string: {!r}'.format(self.name, s[0]))\n", ""),
@@ -185,6 +186,7 @@ BREAK = {
         (['C15.b'], S, "                if self.__rx_buf:\n                    # nothing in the clear may follow the contact header,\n                    # it would be taken for part of the secured stream\n                    self._logger.error('Unsecured data before TLS handshake')\n                    self.close()\n                    return\n", ""),
     ],
     'C16': [
+        (['C16.l'], 'bp/encoding/fields.py', "        if s and s[0] is None:\n", "        if s and s[0] is None and False:\n"),
         (['C16.e'], SEC, "                if not isinstance(param.value, bytes):\n                    raise ValueError('Additional protected parameter is not a byte string')\n", ""),
         (['C16.f'], SEC, "            for blk_num in target_block_nums:\n                sop = copy.copy(sop)\n", "            sop = copy.copy(sop)\n            for blk_num in target_block_nums:\n"),
         (['C16.e'], SEC, "                self.addl_protected = bytes(param.value)\n", "                self.addl_protected = cbor2.dumps(cbor2.loads(bytes(param.value)))\n"),
@@ -247,6 +249,7 @@ BREAK = {
         (['C02.d'], BN, "    def self_build(self, field_pos_list=None):\n        # Special handling for admin payload\n        self._update_from_admin()\n", "    def self_build(self, field_pos_list=None):\n"),
     ],
     'C03': [
+        (['C03.l'], 'bp/encoding/fields.py', "        if s and s[0] is None:\n", "        if s and s[0] is None and False:\n"),
         (['C03.g'], SEC, "                if not isinstance(param.value, dict):\n                    raise ValueError('AAD scope parameter is not a map')\n", ""),
         (['C03.g'], SEC, "        if not isinstance(msg_enc, bytes):\n            raise ValueError('Result value is not a byte string')\n", ""),
         (['C03.g'], SEC, "                self.aad_scope = dict(param.value)\n", "                self.aad_scope = {k: v & 3 for (k, v) in dict(param.value).items()}\n"),
